@@ -329,7 +329,7 @@ func checkC07(w *World, r *Report) {
 					}
 				}
 				for _, l := range o2.Leaves {
-					if l.Kind == "call" && l.V == ssa.Value(lcs[0]) {
+					if l.Kind == "call" && len(lcs) == 1 && l.V == ssa.Value(lcs[0]) {
 						continue
 					}
 					if k, isK := l.V.(*ssa.Const); isK && l.Kind == "const" && k.Value == nil {
